@@ -1582,11 +1582,17 @@ def m_random_sample(eng, st, args, kw, node):
     ValueError when k > n or k < 0; consumes the global `random` generator (effect, see C14)."""
     a0 = node.args[0]
     parts = eng.resolve_dotted(a0.func) if isinstance(a0, ast.Call) else None
-    if parts != ['range'] or len(a0.args) != 1 or kw:
-        raise Unsupported("random.sample population form")
+    if parts == ['range'] and len(a0.args) == 1 and not kw:
+        n = to_int(eng.ev(a0.args[0], st))
+    else:
+        pv = eng.ev(a0, st)         # a range object bound to a name earlier
+        if pv.k != ('range',) or kw:
+            raise Unsupported("random.sample population form")
+        lo_, n = pv.py
+        if not z3.is_int_value(z3.simplify(lo_)) or z3.simplify(lo_).as_long() != 0:
+            raise Unsupported("random.sample over a range not starting at 0")
     used(eng, "random.sample(range(n), k): fresh list of k pairwise distinct ints in [0,n); ValueError if k>n or k<0; "
               "reads and advances the global `random` generator")
-    n = to_int(eng.ev(a0.args[0], st))
     k = to_int(args[1]) if len(args) > 1 else None
     if k is None:
         raise Unsupported("random.sample arity")
@@ -2065,3 +2071,13 @@ def np_atleast_2d(eng, st, args, kw, node):
         raise Unsupported("atleast_2d of %r" % (v.k,))
     used(eng, "np.atleast_2d(M) returns M itself when M is already 2-D")
     return v
+
+
+@model('builtins.range')
+def m_range(eng, st, args, kw, node):
+    """range(n) / range(lo, hi) as a VALUE (bound to a name, passed on); `for ... in range(...)` is handled by the loop rule"""
+    if kw or len(args) not in (1, 2):
+        raise Unsupported("range with a step")
+    lo = z3.IntVal(0) if len(args) == 1 else to_int(args[0])
+    hi = to_int(args[-1])
+    return Val(('range',), None, (lo, hi))
